@@ -1,10 +1,14 @@
-import ThriftVerif.Gen.Evolve
+import ThriftVerif.Gen.UnknownChain
+import ThriftVerif.Generated.C09
+import ThriftVerif.Gen.SchemaCheck
 /-
   C09 — schema evolution: unknown fields are tolerated, and preserved when asked.
-  This file holds the part proved over `Gen.Std` (code generated WITHOUT keep_unknown_fields):
-  old↔new compatibility at one struct level. The keep_unknown_fields part (append/write of raw
-  unknown fields, chains, carrying_iff, depth limit) is stated over `Gen.Unknown` further below
-  once that model is built (see docs/C09.md).
+  First part: code generated WITHOUT keep_unknown_fields (`Gen.Std`): old↔new compatibility at one struct
+  level. Second part: the keep_unknown_fields extension (`Gen.Unknown`): append/write of raw unknown fields,
+  the nesting limit, the Read loop with the buffer, read-then-rewrite, chains, CarryingUnknownFields.
+  All struct-level statements are ONE-level: the two versions of a struct differ in their own field lists and
+  share the struct table for nested types; fields added inside nested structs are covered by the
+  correspondence (compiled pairs) only. See docs/C09.md.
 -/
 namespace Props.C09
 open Wire Gen Gen.Std Gen.Evolve
@@ -37,5 +41,155 @@ theorem new_reads_old (P : Prog) (hP : SchemaOK P) (hv : P.validateSet = false) 
     ∃ fs', (∀ r, readTy P.structs (f + 1) (.struct iNew) (encFields wsO ++ 0 :: r) = some (.strct fs', r)) ∧
       toWFields P sdOld.fields (proj mask fs') = .ok wsO ∧ added mask fs' = added mask (initVals sdNew) :=
   Gen.Evolve.new_reads_old P hP hv iNew sdOld sdNew mask us wsO f hN hl hproj hadd hwt hw hd
+
+/-! ## keep_unknown_fields -/
+open Gen.Unknown
+
+/-- **tie of the tables**: the type codes `unknown.read`/`write` switch on are the binary protocol's codes the
+model uses, the nesting limit is the model's, and every statement of templates/struct.go the model of the
+generated code rests on is present in the tree the run looks at. -/
+theorem tables_match :
+    Generated.C09.typeCodes.map (·.2) = [TType.bool, .i8, .dbl, .i16, .i32, .i64, .str, .struct, .map, .set, .list].map TType.code ∧
+    Generated.C09.maxNestingDepth = Gen.Unknown.maxNestingDepth ∧
+    Generated.C09.templateFacts.all (·.2) = true := by decide
+
+/-- **unknown_append_write**: for any sequence of well-formed fields (ids in int16, values well-formed and
+nested no deeper than 64) arriving on the protocol, in any protocol scratch state, starting from any buffer:
+the Read loop's `Fields.Append` calls consume exactly the fields, report no error and leave the buffer =
+old buffer ++ the fields' encodings, byte-identical and in arrival order; and `Fields.Write` of such a buffer
+emits exactly these bytes. -/
+theorem unknown_append_write (us : List (Nat × WVal)) (hwf : WFFields us) (hd : ∀ x ∈ us, x.2.depth ≤ 64)
+    (rest scr : Bytes) (acc : Fields) :
+    (∃ scr', appendLoop (us.length + 1) ⟨encFields us ++ 0 :: rest, scr⟩ acc = ⟨⟨rest, scr'⟩, acc ++ encFields us, false⟩) ∧
+    Gen.Unknown.write (encFields us) = some (encFields us) :=
+  ⟨appendLoop_enc us hwf hd (us.length + 1) rest scr acc (by omega), write_enc us hwf⟩
+
+/-- **append_agrees_with_skip**: `Fields.Append` accepts every value the protocol's Skip (strict decode to
+depth 64) accepts — ANY bytes, not only canonical ones —, consumes the same bytes, and stores the canonical
+re-encoding of the value decoded (a bool byte other than 1 becomes 0; everything else is copied). -/
+theorem append_agrees_with_skip (acc : Fields) (t : TType) (id : Nat) (bs : Bytes) (w : WVal) (r : Bytes)
+    (h : decW 64 t bs = some (w, r)) :
+    appendB acc t.code id bs = some (acc ++ [t.code] ++ be 2 id ++ encW w, r) :=
+  appendB_of_dec acc t id bs w r h
+
+/-- **depth_limit**: a well-formed value nested deeper than `maxNestingDepth` inside an unknown field makes
+`Fields.Append` return an error (the model has no panic outcome for `Append`; the correspondence runs the
+real code under `recover`), in any protocol state and whatever follows. -/
+theorem depth_limit (acc : Fields) (id : Nat) (u : WVal) (r scr : Bytes) (hwf : WF u)
+    (hd : Gen.Unknown.maxNestingDepth < u.depth) :
+    (append acc u.ttype.code id ⟨encW u ++ r, scr⟩).err = true ∧ appendB acc u.ttype.code id (encW u ++ r) = none :=
+  ⟨append_deep acc id u r scr hwf hd, appendB_deep acc id u r hwf hd⟩
+
+/-- **ku_reads_like_std**: on EVERY input (well-formed or not) on which the plain Read loop succeeds, the
+keep_unknown_fields loop succeeds, builds the same object, stops at the same byte; only its buffer differs. -/
+theorem ku_reads_like_std (rdTy : Ty → Bytes → Option (GoVal × Bytes)) (defs : List FieldDef) (g : Nat) (bs : Bytes)
+    (cur : List GoVal) (seen : List Bool) (acc : Fields) (c : List GoVal) (r : Bytes)
+    (h : readFieldsWith rdTy defs g bs cur seen = some (c, r)) :
+    ∃ acc', readFieldsKU rdTy defs g bs cur seen acc = some (c, r, acc') :=
+  ku_sim rdTy defs g bs cur seen acc c r h
+
+/-- **ku_no_unknown_is_std**: on what the same struct wrote (no unknown id occurs) Read under
+keep_unknown_fields = plain Read with the buffer left empty, and Write with an empty buffer = plain Write. -/
+theorem ku_no_unknown_is_std (P : Prog) (hP : SchemaOK P) (hv : P.validateSet = false) (i : Nat) (sd : StructDef)
+    (fs : List GoVal) (ws : List (Nat × WVal)) (f : Nat) (hsd : P.structs[i]? = some sd)
+    (hwt : WTFields P.structs sd.fields fs) (hw : toWFields P sd.fields fs = .ok ws) (hd : depthFields ws ≤ f) (r : Bytes) :
+    (∃ fs', readTy P.structs (f + 1) (.struct i) (encFields ws ++ 0 :: r) = some (.strct fs', r) ∧
+      readStructKU (readTy P.structs f) sd (encFields ws ++ 0 :: r) = some (fs', r, [])) ∧
+    ∀ obj, writeStructKU P sd obj [] = Gen.Std.write P i (.strct obj) :=
+  ⟨ku_no_unknown_core hP hv i sd fs ws hsd hwt hw hd r, fun obj => writeStructKU_nil P i sd obj hsd⟩
+
+/-- **carrying_iff**: after Read (keep_unknown_fields) of the struct's own written fields interleaved, at any
+positions, with fields of other ids, `CarryingUnknownFields()` ↔ the input had a field id outside the schema
+at that struct level. -/
+theorem carrying_iff (P : Prog) (hP : SchemaOK P) (hv : P.validateSet = false) (i : Nat) (sd : StructDef)
+    (fs : List GoVal) (ws : List (Nat × WVal)) (f : Nat) (hsd : P.structs[i]? = some sd)
+    (hwt : WTFields P.structs sd.fields fs) (hw : toWFields P sd.fields fs = .ok ws) (hd : depthFields ws ≤ f)
+    (ms : List (Nat × WVal)) (r : Bytes) (hm : Mixed sd.fields ws ms) :
+    ∃ fs' acc, readStructKU (readTy P.structs f) sd (encFields ms ++ 0 :: r) = some (fs', r, acc) ∧
+      (carrying acc = true ↔ ∃ x ∈ ms, findField sd.fields x.1 = none) :=
+  carrying_iff_core hP hv i sd fs ws hsd hwt hw hd ms r hm
+
+/-- **keep_roundtrip** (struct/exception, one level; for unions the statement is FALSE, see
+`union_unknown_member_not_rewritable`). `E` bundles: accepted schema, old struct at `iOld`, new struct at
+`iNew` = old + added non-required fields with fresh ids at any positions, a well-typed object `vs` of the new
+struct that writes the fields `wsN` (added values within the Skip depth). Then the old code generated with
+keep_unknown_fields, given the new code's bytes, reads them and writes back the common fields `wsO` (exactly
+what it would write for the projected object) followed by the added fields `wsA` (exactly what the new code
+wrote for them, byte-identical, in arrival order) — a permutation of `wsN`: nothing dropped, duplicated or
+changed —, reports `CarryingUnknownFields()` iff an added field was on the wire, and the NEW code reads the
+re-written bytes without error into an object that encodes to exactly `wsN`. -/
+theorem keep_roundtrip {P : Prog} {iOld iNew : Nat} {sdOld sdNew : StructDef} {mask : List Bool} {vs : List GoVal}
+    {wsN : List (Nat × WVal)} {f : Nat} (E : Evo P iOld iNew sdOld sdNew mask vs wsN f) :
+    ∃ wsO wsA fs'', toWFields P sdOld.fields (proj mask vs) = .ok wsO ∧
+      toWFields P (added mask sdNew.fields) (added mask vs) = .ok wsA ∧
+      hopKU P f sdOld (encFields wsN ++ [0]) = some (encFields (wsO ++ wsA) ++ [0], !wsA.isEmpty) ∧
+      (wsO ++ wsA).Perm wsN ∧
+      (∀ r', readTy P.structs (f + 1) (.struct iNew) (encFields (wsO ++ wsA) ++ 0 :: r') = some (.strct fs'', r')) ∧
+      toWFields P sdNew.fields fs'' = .ok wsN :=
+  keep_roundtrip_core E
+
+/-- **chain**: through ANY chain of hops old(keep_unknown_fields)→new→old→… of any length, starting from the
+new code's bytes (or from the re-written ones), every hop succeeds and the bytes are always one of exactly two
+strings: `encFields wsN` after a hop through the new code, common-then-added (a permutation of `wsN`) after
+a hop through the old code. With `keep_roundtrip` (both strings decode under the new schema to an object that
+encodes to `wsN`) nothing is ever lost. -/
+theorem chain {P : Prog} {iOld iNew : Nat} {sdOld sdNew : StructDef} {mask : List Bool} {vs : List GoVal}
+    {wsN : List (Nat × WVal)} {f : Nat} (E : Evo P iOld iNew sdOld sdNew mask vs wsN f) :
+    ∃ wsO wsA, (wsO ++ wsA).Perm wsN ∧
+      ∀ (hops : List Hop) (b : Bytes), b = encFields wsN ++ [0] ∨ b = encFields (wsO ++ wsA) ++ [0] →
+        runChain P f sdOld iNew hops b = some (endOf (encFields wsN ++ [0]) (encFields (wsO ++ wsA) ++ [0]) b hops) :=
+  chain_core E
+
+/-! ### the union case: keep_roundtrip is false, on the model as on the code
+
+`old: union U {1: i32 a}`, `new: union U {1: i32 a, 2: string b}`, value `U{b: "hi"}`. -/
+
+def unionOld : StructDef := { kind := 1, fields := [{ id := 1, req := .optional, ty := .i32, dflt := none }] }
+def unionProg : Prog := { structs := [unionOld], keepUnknown := true, validateSet := false }
+/-- `0b 0002 00000002 'h' 'i' 00`: what the new code writes for `U{b: "hi"}` -/
+def unionBytes : Bytes := [11, 0, 2, 0, 0, 0, 2, 104, 105, 0]
+
+/-- the old code with keep_unknown_fields READS the new union (and carries the member it does not know), but
+its Write refuses the object: `CountSetFields` counts known members only (0 ≠ 1). -/
+theorem union_unknown_member_not_rewritable :
+    readStructKU (readTy unionProg.structs 5) unionOld unionBytes = some ([.nil], [], [11, 0, 2, 0, 0, 0, 2, 104, 105]) ∧
+    carrying [11, 0, 2, 0, 0, 0, 2, 104, 105] = true ∧
+    writeStructKU unionProg unionOld [.nil] [11, 0, 2, 0, 0, 0, 2, 104, 105] = .err ∧
+    hopKU unionProg 5 unionOld unionBytes = none ∧
+    writeKU unionProg 0 (.strct [.nil, .bytes [11, 0, 2, 0, 0, 0, 2, 104, 105]]) = .err := by
+  refine ⟨by rfl, by rfl, by rfl, by rfl, by rfl⟩
+
+/-! ### the hypotheses are satisfiable: `struct S {1: i32 x}` → `struct S {1: i32 x, 2: optional string y}` -/
+
+def exOld : StructDef := { kind := 0, fields := [{ id := 1, req := .default, ty := .i32, dflt := none }] }
+def exNew : StructDef := { kind := 0, fields := [{ id := 1, req := .default, ty := .i32, dflt := none },
+                                                  { id := 2, req := .optional, ty := .str, dflt := none }] }
+def exProg : Prog := { structs := [exOld, exNew], keepUnknown := true, validateSet := false }
+
+example : Evo exProg 0 1 exOld exNew [true, false] [.int 7, .bytes [104, 105]]
+    [(1, .i32 7), (2, .bin [104, 105])] 1 where
+  hP := Gen.Std.schemaOkB_sound exProg (by decide)
+  hv := rfl
+  hO := rfl
+  hN := rfl
+  hl := rfl
+  hproj := rfl
+  hfresh := by decide
+  hadd := by decide
+  hwt := by simp [WTFields, WT, exNew, fitsLen, maxSize]
+  hw := by rfl
+  hsh := by
+    simp only [AddedShallow, exNew, and_true]
+    intro w h
+    have : w = .bin [104, 105] := by
+      simp only [toW, scalarW, Res.ofOption] at h; cases h; rfl
+    subst this; simp [WVal.depth]
+  hd := by decide
+  hkO := by decide
+  hkN := by decide
+
+/-- on that instance the hop is computed: common field first, the added one after it, carrying -/
+example : hopKU exProg 1 exOld [8, 0, 1, 0, 0, 0, 7, 11, 0, 2, 0, 0, 0, 2, 104, 105, 0] =
+    some ([8, 0, 1, 0, 0, 0, 7, 11, 0, 2, 0, 0, 0, 2, 104, 105, 0], true) := by rfl
 
 end Props.C09
